@@ -37,7 +37,11 @@ func (c *Context) Set(key string, value interface{}) {
 // Value from the context, or it's parent's context if one exists.
 func (c *Context) Value(key interface{}) interface{} {
 	if s, ok := key.(string); ok {
-		if v, ok := c.data[s]; ok {
+		c.moot.Lock()
+		v, ok := c.data[s]
+		c.moot.Unlock()
+
+		if ok {
 			return v
 		}
 		if c.outer != nil {
@@ -63,9 +67,11 @@ func (c *Context) export() map[string]interface{} {
 			m[k] = v
 		}
 	}
+	c.moot.Lock()
 	for k, v := range c.data {
 		m[k] = v
 	}
+	c.moot.Unlock()
 
 	return m
 }
